@@ -114,6 +114,7 @@ class IndexableArray(RaggedBase):
         return slice(int(view.starts), int(view.ends)), None
 
     def _get_element(self, row, col):
+        self.ravel()
         row, col = (np.asanyarray(v) for v in (row, col))
         if self._safe_mode and (
             np.any(row >= self._shape.n_rows) or np.any(col >= self._shape.lengths[row])
